@@ -757,7 +757,7 @@ def xBody : Bytes := [104, 105]
 def xMsg (pl : Plan) : Msg Bytes Bytes := Msg.cont pl xHead xBody
 example : refParser.rl xHead = .head xHead xHead.length ∧ refParser.cb xHead xBody = .frame xBody 2 := by decide
 example : refParser.rl (xHead ++ xBody ++ h1B) = .head xHead xHead.length := by decide
-example : Faithful goodPlan ∧ ¬ Faithful { goodPlan with guarded := true } := by decide
+example : Faithful goodPlan := ⟨rfl, rfl⟩
 -- the regenerated loop: body in the read of the head, straddling, later, one byte per read — always the same two requests
 example : (runC goodPlan refParser [xHead ++ xBody ++ h1B]).out = [xMsg goodPlan, Msg.plain h1B []] := by decide
 example : (runC goodPlan refParser [xHead ++ [104], [105] ++ h1B]).out = [xMsg goodPlan, Msg.plain h1B []] := by decide
